@@ -675,3 +675,83 @@ func ruleARI6(p *Program) *RuleResult {
 	r.floor("fallible_operations", 8)
 	return r
 }
+
+// ARI7: the Decimal operations of the value layer delegate to the exact
+// operation of the same meaning in shopspring/decimal, on (receiver, argument)
+// in that order: Add→Add, Sub→Sub, Mul→Mul, Mod→Mod, Div→Div (the documented
+// 16-digit division) and FloorDiv→QuoRem at precision 0 (exact integer
+// quotient); no other decimal arithmetic takes part.
+func ruleARI7(p *Program) *RuleResult {
+	r := newResult("ARI7")
+	arith := map[string]bool{"Add": true, "Sub": true, "Mul": true, "Div": true, "Mod": true, "QuoRem": true, "DivRound": true, "Pow": true, "Neg": true,
+		"Truncate": true, "Round": true, "RoundBank": true, "Floor": true, "Ceil": true, "Shift": true, "Abs": true, "RoundCeil": true, "RoundFloor": true, "RoundUp": true, "RoundDown": true}
+	want := map[string][]string{"Add": {"Add"}, "Sub": {"Sub"}, "Mul": {"Mul"}, "Mod": {"Mod"}, "Div": {"Div"}, "FloorDiv": {"QuoRem"}}
+	for _, m := range []string{"Add", "Sub", "Mul", "Mod", "Div", "FloorDiv"} {
+		fn, err := p.Method("fhirpath/system", "Decimal", m)
+		if err != nil {
+			return r.anchorFail(err)
+		}
+		r.count("decimal_methods", 1)
+		var got []string
+		orderOK := true
+		for _, b := range fn.Blocks {
+			for _, ins := range b.Instrs {
+				c, ok := ins.(*ssa.Call)
+				if !ok || c.Common().StaticCallee() == nil || !strings.Contains(c.Common().StaticCallee().RelString(nil), "shopspring/decimal.Decimal).") {
+					continue
+				}
+				n := c.Common().StaticCallee().Name()
+				if !arith[n] {
+					continue
+				}
+				got = append(got, n)
+				// operands: receiver derives from parameter 0, argument from parameter 1
+				if len(c.Common().Args) >= 2 {
+					if rootParam(c.Common().Args[0]) != fn.Params[0] || rootParam(c.Common().Args[1]) != fn.Params[1] {
+						orderOK = false
+					}
+				}
+			}
+		}
+		key := "system.Decimal." + m + "|delegation"
+		switch {
+		case strings.Join(got, ",") != strings.Join(want[m], ","):
+			r.bad(key, fmt.Sprintf("Decimal.%s computes with decimal %v (expected %v)", m, got, want[m]), p.pos(fn.Pos()),
+				"the operation is no longer the exact library operation: intermediate rounding (Div rounds to 16 digits) or a different operator changes results for some operands")
+		case !orderOK:
+			r.bad(key, fmt.Sprintf("Decimal.%s passes its operands to decimal.%s in the wrong order", m, want[m][0]), p.pos(fn.Pos()), "non-commutative operations change their result")
+		default:
+			r.ok(key, fmt.Sprintf("Decimal.%s is decimal.%s(receiver, argument)", m, want[m][0]), p.pos(fn.Pos()), "call inventory and operand provenance", true)
+		}
+	}
+	r.floor("decimal_methods", 6)
+	return r
+}
+
+// rootParam: the parameter a value is a (type-)conversion of, or nil.
+func rootParam(v ssa.Value) *ssa.Parameter {
+	for i := 0; i < 6; i++ {
+		switch x := v.(type) {
+		case *ssa.Parameter:
+			return x
+		case *ssa.ChangeType:
+			v = x.X
+		case *ssa.Convert:
+			v = x.X
+		case *ssa.UnOp:
+			// spilled parameter
+			if al, ok := x.X.(*ssa.Alloc); ok && storesTo(al) == 1 {
+				for _, ref := range *al.Referrers() {
+					if st, ok := ref.(*ssa.Store); ok && st.Addr == ssa.Value(al) {
+						v = st.Val
+					}
+				}
+				continue
+			}
+			return nil
+		default:
+			return nil
+		}
+	}
+	return nil
+}
